@@ -11,6 +11,7 @@ From Apko Require Import Base.Prelude Generated.VersionConsts Generated.C03Versi
   Spec.ResolveSpec Proofs.ResolveProofs Proofs.ResolveProofs2 Proofs.ResolveTheorems Proofs.ResolveEnvelope Proofs.ResolveNoPanic.
 From Apko Require Proofs.ResolveClosure2.
 From Apko Require Import Spec.ResolveMultiSpec Proofs.ResolveMulti Proofs.ResolveMulti2 Proofs.ResolveMultiWitness Proofs.ResolveConflicts.
+From Apko Require Import Generated.C02Resolver Proofs.ResolveGenerated.
 Open Scope string_scope. Open Scope list_scope. Open Scope nat_scope.
 
 (* the verified validator run on the implementation's results decides the specification *)
@@ -272,3 +273,26 @@ Print Assumptions c02_selected_monotone.
 Example c02_pick_example :
   let R := new_resolver U_F1 in pick R 3 [("c", 4)] = Err /\ pick R 4 [("c", 4)] = Ok [("c", 4)].
 Proof. vm_compute. split; reflexivity. Qed.
+
+(* ======================= the tie of these three functions to the source ============================== *)
+(* goextract translates conflictingVersion, pick and disqualifyConflicts of pkg/apk/apk/repo.go statement
+   by statement (Generated/C02Resolver.v, regenerated on every run); the translations ARE the model's
+   functions.  Editing one of them in /repo changes the generated term and this proof fails. *)
+Theorem c02_translated_functions_are_the_model :
+  (forall c k, gen_conflicting_version c k = conflicting_version c k) /\
+  (forall R i sel, gen_pick R i sel = pick R i sel) /\
+  (forall R i dq, gen_disqualify_conflicts R i dq = disqualify_conflicts R i dq).
+Proof. exact code_functions_are_the_model. Qed.
+Print Assumptions c02_translated_functions_are_the_model.
+(* two of the guarantees above, stated of the translated code itself *)
+Theorem c02_code_versioned_provide_conflicts : forall c k, c_version c <> "" -> gen_conflicting_version c k = Some true.
+Proof. exact code_versioned_provide_conflicts. Qed.
+Print Assumptions c02_code_versioned_provide_conflicts.
+Theorem c02_code_pick_refuses_second_package : forall R i sel j,
+  alookup (k_name (getp R i)) sel = Some j -> j <> i -> gen_pick R i sel = Err.
+Proof. exact code_pick_refuses_second. Qed.
+Print Assumptions c02_code_pick_refuses_second_package.
+Example c02_code_example :
+  let R := new_resolver U_F1 in gen_pick R 3 [("c", 4)] = Err /\ gen_disqualify_conflicts R 4 [] = Ok [] /\
+  gen_conflicting_version (resolve_constraint "so:x=1") (cook_pkg (wp "p" "1" [] ["so:x=1"] [])) = Some true.
+Proof. vm_compute. repeat split; reflexivity. Qed.
